@@ -354,10 +354,10 @@ theorem XInv.attach {L : List Layer} {T : List Tok} {b : Nat} (x : XInv L T (som
     · exact x.btok i li h
     · subst h; exact ⟨t, by rw [hb]; exact ht, by rw [ho, hc]⟩
   · intro i j li lj hi hj e
-    rcases look i li hi with hi | ⟨hi1, hi2⟩ <;> rcases look j lj hj with hj | ⟨hj1, hj2⟩
-    · exact x.binj i j li lj hi hj e
-    · subst hj2; exact absurd (e.trans hb) (hne i li hi)
-    · subst hi2; exact absurd (e.symm.trans hb) (hne j lj hj)
+    rcases look i li hi with hi0 | ⟨hi1, hi2⟩ <;> rcases look j lj hj with hj0 | ⟨hj1, hj2⟩
+    · exact x.binj i j li lj hi0 hj0 e
+    · exact absurd (e.trans (hj2 ▸ hb)) (hne i li hi0)
+    · exact absurd (e.symm.trans (hi2 ▸ hb)) (hne j lj hj0)
     · omega
   · intro tok t' ht' ho'
     rcases x.orphan tok t' ht' ho' with ⟨i, li, hi, hli⟩ | h
@@ -417,5 +417,170 @@ theorem XInv.closeLayer {L : List Layer} {T : List Tok} {p : Option Nat} {lid : 
     rcases look i li h with ⟨_, h⟩ | ⟨h1, h2⟩
     · exact hne i li h
     · subst h2; rw [hb]; exact e
+
+/-! ## E. what the callbacks and cache operations of the state leave untouched -/
+
+@[simp] theorem closeBlob_bc (s : State) (bid : Nat) : (closeBlob s bid).bc = s.bc := by
+  unfold closeBlob; split <;> [rfl; (split <;> rfl)]
+@[simp] theorem closeBlob_lc (s : State) (bid : Nat) : (closeBlob s bid).lc = s.lc := by
+  unfold closeBlob; split <;> [rfl; (split <;> rfl)]
+@[simp] theorem closeBlob_layers (s : State) (bid : Nat) : (closeBlob s bid).layers = s.layers := by
+  unfold closeBlob; split <;> [rfl; (split <;> rfl)]
+@[simp] theorem closeBlob_fsDirs (s : State) (bid : Nat) : (closeBlob s bid).fsDirs = s.fsDirs := by
+  unfold closeBlob; split <;> [rfl; (split <;> rfl)]
+
+@[simp] theorem bcFire_bc (s : State) (c0 : Core) (id : Nat) : (bcFire s c0 id).bc = s.bc := by
+  unfold bcFire; split <;> simp
+@[simp] theorem bcFire_lc (s : State) (c0 : Core) (id : Nat) : (bcFire s c0 id).lc = s.lc := by
+  unfold bcFire; split <;> simp
+@[simp] theorem bcFire_layers (s : State) (c0 : Core) (id : Nat) : (bcFire s c0 id).layers = s.layers := by
+  unfold bcFire; split <;> simp
+@[simp] theorem bcFire_fsDirs (s : State) (c0 : Core) (id : Nat) : (bcFire s c0 id).fsDirs = s.fsDirs := by
+  unfold bcFire; split <;> simp
+
+@[simp] theorem bcDone_bc (s : State) (tok : Nat) (e : Bool) : (bcDone s tok e).bc = (s.bc.done tok e).1 := by
+  unfold bcDone; split
+  · rename_i h; simp [TTL.done, h]
+  · simp
+@[simp] theorem bcDone_lc (s : State) (tok : Nat) (e : Bool) : (bcDone s tok e).lc = s.lc := by
+  unfold bcDone; split <;> simp
+@[simp] theorem bcDone_layers (s : State) (tok : Nat) (e : Bool) : (bcDone s tok e).layers = s.layers := by
+  unfold bcDone; split <;> simp
+@[simp] theorem bcDone_fsDirs (s : State) (tok : Nat) (e : Bool) : (bcDone s tok e).fsDirs = s.fsDirs := by
+  unfold bcDone; split <;> simp
+
+@[simp] theorem bcEvict_bc (s : State) (k : Nat) : (bcEvict s k).bc = s.bc.evictLocked k := by
+  unfold bcEvict; split
+  · rename_i h; simp [TTL.evictLocked, h]
+  · simp
+@[simp] theorem bcEvict_lc (s : State) (k : Nat) : (bcEvict s k).lc = s.lc := by
+  unfold bcEvict; split <;> simp
+@[simp] theorem bcEvict_layers (s : State) (k : Nat) : (bcEvict s k).layers = s.layers := by
+  unfold bcEvict; split <;> simp
+@[simp] theorem bcEvict_fsDirs (s : State) (k : Nat) : (bcEvict s k).fsDirs = s.fsDirs := by
+  unfold bcEvict; split <;> simp
+
+@[simp] theorem TTL.evictLocked_toks' (t : TTL) (k : Nat) : (t.evictLocked k).core.toks = t.core.toks :=
+  TTL.evictLocked_toks t k
+
+/-! ## F. the invariants of the state -/
+
+/-- blob cache ↔ `Blob` objects ↔ `httpcache` directories -/
+structure BInv (s : State) : Prop where
+  reach : Reach s.bc
+  link : Link s.bc s.blobs Blob.name Blob.closed
+  flags : ∀ (i : Nat) (b : Blob), s.blobs[i]? = some b → b.cacheClosed = b.closed
+  dirs : s.httpDirs = ((s.blobs.countP (fun b => !b.closed) : Nat) : Int)
+
+/-- layer cache ↔ `*layer` objects ↔ `fscache` directories -/
+structure LInv (s : State) : Prop where
+  reach : Reach s.lc
+  link : Link s.lc s.layers Layer.name Layer.closed
+  flags : ∀ (i : Nat) (l : Layer), s.layers[i]? = some l →
+    l.readerClosed = l.closed ∧ l.metadataClosed = l.closed ∧ l.cachesClosed = l.closed ∧
+    l.blobDone = (if l.closed then 1 else 0)
+  dirs : s.fsDirs = ((s.layers.countP (fun l => !l.closed) : Nat) : Int)
+
+structure Inv (s : State) (p : Option Nat) : Prop where
+  b : BInv s
+  l : LInv s
+  x : XInv s.layers s.bc.core.toks p
+
+theorem BInv.congr {s s' : State} (h : BInv s) (e1 : s'.bc = s.bc) (e2 : s'.blobs = s.blobs)
+    (e3 : s'.httpDirs = s.httpDirs) : BInv s' :=
+  ⟨e1 ▸ h.reach, by rw [e1, e2]; exact h.link, by rw [e2]; exact h.flags, by rw [e2, e3]; exact h.dirs⟩
+
+theorem LInv.congr {s s' : State} (h : LInv s) (e1 : s'.lc = s.lc) (e2 : s'.layers = s.layers)
+    (e3 : s'.fsDirs = s.fsDirs) : LInv s' :=
+  ⟨e1 ▸ h.reach, by rw [e1, e2]; exact h.link, by rw [e2]; exact h.flags, by rw [e2, e3]; exact h.dirs⟩
+
+theorem Inv.init : Inv {} none :=
+  ⟨⟨Reach.init, Link.init _ _, by intro i b h; simp at h, rfl⟩,
+   ⟨Reach.init, Link.init _ _, by intro i l h; simp at h, rfl⟩, XInv.init⟩
+
+/-- Did the callback of `id` run between `c` and `c'`?  Under C10's invariant: yes iff the counter
+went from 0 to 1. -/
+theorem fired_cases {t t' : TTL} {id : Nat} (fr : Frame t.core t'.core id) (inv' : TInv t') :
+    (callsOf t.core id < callsOf t'.core id ∧
+      ∃ r r', t.core.rcs[id]? = some r ∧ t'.core.rcs[id]? = some r' ∧ r.calls = 0 ∧ r'.calls = 1) ∨
+    (¬ callsOf t.core id < callsOf t'.core id ∧
+      ∀ r r', t.core.rcs[id]? = some r → t'.core.rcs[id]? = some r' → r'.calls = r.calls) := by
+  cases h' : t'.core.rcs[id]? with
+  | none =>
+    right
+    have hn : t.core.rcs[id]? = none := by
+      have := fr.len
+      rw [List.getElem?_eq_none_iff] at h' ⊢; omega
+    refine ⟨by simp [callsOf, h', hn], ?_⟩
+    intro r r' hr; rw [hn] at hr; cases hr
+  | some r' =>
+    obtain ⟨r, hr, _, _, hle⟩ := fr.same r' h'
+    have h1 := inv'.calls_le_one h'
+    rw [callsOf_of hr, callsOf_of h']
+    by_cases hlt : r.calls < r'.calls
+    · left; exact ⟨hlt, r, r', hr, rfl, by omega, by omega⟩
+    · right
+      refine ⟨hlt, ?_⟩
+      intro a b ha hb; cases ha; cases hb; omega
+
+theorem countP_set_close {α : Type} (closed : α → Bool) (objs : List α) (i : Nat) (o o' : α)
+    (h : objs[i]? = some o) (hc : closed o = false) (hc' : closed o' = true) :
+    (((objs.set i o').countP (fun b => !closed b) : Nat) : Int) =
+      ((objs.countP (fun b => !closed b) : Nat) : Int) - 1 := by
+  obtain ⟨hlt, hget⟩ := List.getElem_of_getElem? h
+  rw [List.countP_set hlt]
+  have hpos : 0 < objs.countP (fun b => !closed b) :=
+    List.countP_pos_iff.mpr ⟨o, List.mem_of_getElem? h, by simp [hc]⟩
+  simp [hget, hc, hc']
+  omega
+
+/-- A blob-cache operation followed by the callback it may have triggered keeps the blob side. -/
+theorem BInv.fire {s : State} (inv : BInv s) {t' : TTL} {id : Nat} (hr : Reach t')
+    (fr : Frame s.bc.core t'.core id) : BInv (bcFire { s with bc := t' } s.bc.core id) := by
+  unfold bcFire
+  rcases fired_cases fr hr.inv with ⟨hf, r, r', h0, h1, c0, c1⟩ | ⟨hf, hsame⟩
+  · simp only [hf, if_true]
+    obtain ⟨b, hb, hv, hn, hc⟩ := inv.link.ok id r h0
+    have hbc : b.closed = false := by rw [hc, c0]; rfl
+    obtain ⟨r0, hr0, _, hv0, _⟩ := fr.same r' h1
+    rw [h0] at hr0; cases hr0
+    have hval : t'.core.valOf id = id := by rw [valOf_of h1, hv0, hv]
+    simp only [hval]
+    unfold closeBlob
+    simp only [hb, hbc]
+    have hlt := (List.getElem_of_getElem? hb).1
+    refine ⟨hr, ?_, ?_, ?_⟩
+    · refine inv.link.step fr (by simp) (fun j hj => by simp [List.getElem?_set_ne (Ne.symm hj)]) ?_
+      intro o a a' ho ha ha'
+      rw [hb] at ho; cases ho
+      rw [h1] at ha'; cases ha'
+      exact ⟨_, by simp [List.getElem?_set_self hlt], rfl, by simp [c1]⟩
+    · intro i b' hb'
+      simp only at hb'
+      by_cases e : id = i
+      · subst e; rw [List.getElem?_set_self hlt] at hb'; cases hb'; rfl
+      · rw [List.getElem?_set_ne e] at hb'; exact inv.flags i b' hb'
+    · simp only
+      rw [countP_set_close Blob.closed s.blobs id b _ hb hbc rfl, inv.dirs]
+  · simp only [hf, if_false]
+    exact ⟨hr, inv.link.step_same fr hsame, inv.flags, inv.dirs⟩
+
+theorem BInv.bcDone {s : State} (inv : BInv s) (tok : Nat) (e : Bool) : BInv (bcDone s tok e) := by
+  unfold SV.LayerLife.bcDone
+  split
+  · exact inv
+  · rename_i t ht
+    exact inv.fire (inv.reach.done tok e) (TTL.done_frame e ht)
+
+theorem BInv.bcEvict {s : State} (inv : BInv s) (k : Nat) : BInv (bcEvict s k) := by
+  unfold SV.LayerLife.bcEvict
+  split
+  · exact inv
+  · rename_i id hm
+    exact inv.fire (inv.reach.evict k) (TTL.evict_frame hm)
+
+theorem bcDone_toks {s : State} {tok : Nat} {t : Tok} (e : Bool) (ht : s.bc.core.toks[tok]? = some t) :
+    (bcDone s tok e).bc.core.toks = s.bc.core.toks.set tok { t with once := true } := by
+  rw [bcDone_bc]; exact TTL.done_toks e ht
 
 end SV.LayerLife
